@@ -588,6 +588,39 @@ def _interval(t):
 _itruth_cache = {}
 
 
+def int_view(t):
+    """Int term equal to the Real term t when t is structurally integer-valued (sums/products of ToReal(int) and integral numerals)"""
+    t = z3.simplify(t)
+    if t.sort() == INT:
+        return t
+    if z3.is_rational_value(t):
+        return z3.IntVal(t.numerator_as_long()) if t.denominator_as_long() == 1 else None
+    k = t.decl().kind()
+    if k == z3.Z3_OP_TO_REAL:
+        return t.arg(0)
+    if k in (z3.Z3_OP_ADD, z3.Z3_OP_MUL, z3.Z3_OP_SUB, z3.Z3_OP_UMINUS):
+        parts = [int_view(c) for c in t.children()]
+        if any(p is None for p in parts):
+            return None
+        if k == z3.Z3_OP_ADD:
+            return z3.Sum(parts)
+        if k == z3.Z3_OP_MUL:
+            r = parts[0]
+            for p in parts[1:]:
+                r = r * p
+            return r
+        if k == z3.Z3_OP_SUB:
+            r = parts[0]
+            for p in parts[1:]:
+                r = r - p
+            return r
+        return -parts[0]
+    if k == z3.Z3_OP_ITE:
+        a, b = int_view(t.arg(1)), int_view(t.arg(2))
+        return None if a is None or b is None else z3.If(t.arg(0), a, b)
+    return None
+
+
 def interval_truth(c):
     """True/False if the interval pass decides the Boolean term c, else None"""
     key = c.get_id()
@@ -855,14 +888,18 @@ class SNum(Sym):
             if SBool(a.t == 0):
                 return builtins.float("nan")
             return builtins.float("inf") if SBool(a.t > 0) else -builtins.float("inf")
-        if ENG.concretize_div and a.t.sort() == INT and b.t.sort() == INT:
-            # quotient of two bounded integer counts: fork over the feasible (numerator, denominator) values so that
-            # every score is a concrete rational on the path and all later comparisons are decided without NIA
-            ia, ib = interval(a.t), interval(b.t)
-            if ia is not None and ib is not None and ia[1] - ia[0] <= ENG.concretize_div and ib[1] - ib[0] <= ENG.concretize_div:
-                bv = ENG.concretize(b.t, ib[0], ib[1])
-                av = ENG.concretize(a.t, ia[0], ia[1])
-                return SNum(z3.RealVal(Fraction(av, bv)), None if not numpyish else "float64")
+        if ENG.concretize_div:
+            # quotient of two bounded integer counts (possibly already converted with float()): fork over the feasible
+            # (numerator, denominator) values so that every score is a concrete rational on the path and all later
+            # comparisons are decided without NIA
+            at = a.t if a.t.sort() == INT else int_view(a.t)
+            bt = b.t if b.t.sort() == INT else int_view(b.t)
+            if at is not None and bt is not None:
+                ia, ib = interval(at), interval(bt)
+                if ia is not None and ib is not None and ia[1] - ia[0] <= ENG.concretize_div and ib[1] - ib[0] <= ENG.concretize_div:
+                    bv = ENG.concretize(bt, ib[0], ib[1])
+                    av = ENG.concretize(at, ia[0], ia[1])
+                    return SNum(z3.RealVal(Fraction(av, bv)), None if not numpyish else "float64")
         t = to_real(a.t) / to_real(b.t)
         return SNum(z3.simplify(t), None if not numpyish else "float64")
 
